@@ -36,7 +36,7 @@ ASSUMPTIONS = [
     "no other live node has taken over a serialized id at deserialization time (alive-subsets arise from dropping handles / detaching whole trees)",
     "Any-typed properties, NaN/inf, lone surrogates and ints beyond 64 bits are outside the generator",
 ]
-MUST_SEE = ["twin_population_changed_before_read", "user_dialect_roundtrips", "payload_read_again", "equal_but_distinct_source_objects", "subclass_clear_registry_calls", "union_field_non_first_member", "other_dialect_call_before_roundtrip", "recreated_with_suffix_id", "shared_subtrees", "fresh_process_cases", "subforest_alive", "none_alive", "all_alive", "multi_origin", "hostile_strings", "index_sources", "yaml", "msgpck", "json", "failed_call_before_roundtrip"]
+MUST_SEE = ["foreign_source_dump_loaded", "twin_population_changed_before_read", "user_dialect_roundtrips", "payload_read_again", "equal_but_distinct_source_objects", "subclass_clear_registry_calls", "union_field_non_first_member", "other_dialect_call_before_roundtrip", "recreated_with_suffix_id", "shared_subtrees", "fresh_process_cases", "subforest_alive", "none_alive", "all_alive", "multi_origin", "hostile_strings", "index_sources", "yaml", "msgpck", "json", "failed_call_before_roundtrip"]
 CONFIG = {
     "quick": {"shards": 16, "trees": 60, "fresh": 6, "watchdog_s": 600},
     "thorough": {"shards": 32, "trees": 400, "fresh": 60, "watchdog_s": 3400},
@@ -294,6 +294,13 @@ def run_shard(ctx):
                     if "__type" not in chk or any(isinstance(v, dict) and set(v) == {"idx"} for v in (chk.get("origin", {}).get("source"),)):
                         ctx.violation("options-leaked-into-roundtrip", "a default serialization after a failed call with options is not a default serialization", dict(detail, keys=list(chk)[:6]))
                     del tmp
+            if rng.random() < 0.2:
+                # a dump of sources from elsewhere (another order, some sources unknown here) is loaded into the registry
+                # that already holds this process's sources: known sources stay what and where they are
+                dump = [d for d in reversed(Source.all_as_dict()) if "sources" not in d]  # (plain sources only, no source sets)
+                extra = [dict(d, source_uri=f"foreign://{case}/{i}") for i, d in enumerate(dump[:2]) if "source_uri" in d and "sources" not in d]
+                Source.load_serialized_sources(extra[:1] + dump + extra[1:])
+                ctx.count("foreign_source_dump_loaded")
             try:
                 res = from_fmt(C, payload, fmt, opts)
             except Exception as e:  # noqa: BLE001
